@@ -1,8 +1,13 @@
-(** extraction of the C13 model: specifications (ModRingSpec) + 64-bit instance of the as-is model *)
+(** extraction of the C13 model: specifications (ModRingSpec) + 64-bit instance of the value-level as-is model
+    (ModRingInst.v) + the second 64-bit instance (ModRingConvInst.v: multi-word rings on word lists with the real
+    kernels of C01 / C02, one- and two-word rings with num-modular as transcribed) *)
 Require Import FastZ.
-From Dashu Require Import Base.Prelude Int.ModRingSpec Int.ModRingPowModel Int.ModRingModel Int.ModRingInst.
+From Dashu Require Import Base.Prelude Int.ModRingSpec Int.ModRingPowModel Int.ModRingModel Int.ModRingInst
+  Int.ModRingWords Int.ModRingConv Int.ModRingConvInst.
+
 Extraction "model.ml"
   reduce_spec add_spec sub_spec mul_spec neg_spec dbl_spec sqr_spec powm inv_spec inv_ok div_spec
   bin_spec un_spec rd_check_spec
   run_reduce run_bin run_un run_pow run_pow_prefix run_inv run_eq
-  run_rd run_rd_inv run_rd_check run_rd_modulus i_new r_shift r_kind.
+  run_rd run_rd_inv run_rd_check run_rd_modulus i_new r_shift r_kind
+  hrun_reduce hrun_bin hrun_un hrun_pow hrun_inv hrun_eq hrun_transform.
